@@ -1,5 +1,6 @@
 """C05 — iterators and circulators enumerate exactly the live / incident entities."""
 from props.kernel_check import run_kernel
+from vlib import probes
 
 
 def run(ctx):
@@ -7,3 +8,5 @@ def run(ctx):
         dict(profile="c05", kind="poly", traces=(48, 800), ops=32, queries=0),
         dict(profile="c05", kind="tet", traces=(16, 200), ops=32, queries=0),
     ], level_when_proved="other", extra_props=("C05Tet", "C05Cyc"))
+    ctx.coverage.update(probes.probe(ctx, "C05", "C05M", "C05M:neighbour-once-per-parallel-edge",
+                                     "vv_iter visits a neighbour once per parallel edge (a set relation enumerated with multiplicity)"))
